@@ -1,6 +1,7 @@
 import Casket.Proofs.Chain
 import Casket.Proofs.Cond
 import Casket.Proofs.Htpasswd
+import Casket.Proofs.AuthConc
 import Casket.Generated.Directives
 /-
 C03 — Protected paths are never disclosed without valid credentials.
@@ -235,6 +236,59 @@ example : Casket.Htpasswd.serve [] [(mF1, [mA, mB])] (b! "b") (b! "/secret/s.txt
 example : Casket.Htpasswd.serve [] [(mF1, [mA, mB])] (b! "b") (b! "/secret/s.txt") (some (b! "bob", b! "pwB")) = .content (b! "/rB") := by decide
 example : Casket.Htpasswd.serve [] [(mF1, [mA, mB]), (mF2, [mB, mA])] (b! "a") (b! "/secret/s.txt") (some (b! "bob", b! "pwA")) = .unauthorized := by decide
 example : Casket.Htpasswd.serve [] [(mF1, [mA, mB]), (mF2, [mB, mA])] (b! "a") (b! "/secret/s.txt") (some (b! "bob", b! "pwA2")) = .content (b! "/rA") := by decide
+
+/-! ### Concurrent requests on one rule with a plain password
+
+`PlainMatcher`'s closure hashes the presented password into a variable of the CALL and compares
+it with the rule's hash.  `AuthConc.runSched` lets the calls in flight on one rule take their two
+steps (store my hash / compare) in ANY order; the theorems say that no order matters.  The stream
+`c03.conc` explores schedules on the real `ServeHTTP` (goroutines with valid and with wrong
+credentials against one protected path) — exploration, not proof: the Go scheduler picks the
+interleavings. -/
+
+open Casket.AuthConc Casket.AuthConcSpec Casket.AuthConcProofs in
+/-- Purity of the credential decision: for every rule, every set of calls in flight, every
+schedule (any interleaving of their steps, complete or not), each decision that comes out is
+`ruleAccepts rule (user, password)` of the call's OWN credentials — a function of (rule, presented
+credentials) only; the other calls and the order do not enter.  `hash` (SHA-1) is only assumed
+injective. -/
+theorem C03_credential_decision_pure (hash : Bytes → Bytes) (rule : AuthRule) (calls : List Call) (sched : List Nat)
+    (hinj : ∀ a b, hash a = hash b → a = b) :
+    ∀ jd ∈ runSched hash rule calls (idleSlots calls) sched,
+      ∃ c, calls[jd.1]? = some c ∧ jd.2 = ruleAccepts rule (some (c.user, c.pw)) :=
+  runSched_pure hinj sched _ (inv_idle hash rule calls)
+
+open Casket.AuthConc Casket.AuthConcSpec Casket.AuthConcProofs in
+/-- Hence the judged predicate of the concurrent phase holds of the model for every schedule: no
+call lacking valid credentials is authenticated, no call with valid credentials is refused. -/
+theorem C03_conc_model_verdict_ok (hash : Bytes → Bytes) (rule : AuthRule) (calls : List Call) (sched : List Nat)
+    (hinj : ∀ a b, hash a = hash b → a = b) :
+    Casket.AuthConcSpec.verdict (tally rule calls (runSched hash rule calls (idleSlots calls) sched)) = "ok" := by
+  rw [tally_of_pure rule calls _ (runSched_pure hinj sched _ (inv_idle hash rule calls))]
+  rfl
+
+def cRule : AuthRule := { user := b! "bob", pass := b! "pw", resources := [b! "/secret"], excludes := [] }
+def cCalls : List Casket.AuthConc.Call := [⟨b! "bob", b! "wrong"⟩, ⟨b! "bob", b! "pw"⟩, ⟨b! "eve", b! "pw"⟩]
+
+/-- (non-vacuity) `id` is injective; under maximal overlap and one after the other the three calls
+get the same decisions: wrong password no, right password yes, wrong user no -/
+example : ∀ a b : Bytes, id a = id b → a = b := fun _ _ h => h
+example : Casket.AuthConc.runSched id cRule cCalls (Casket.AuthConc.idleSlots cCalls) (Casket.AuthConc.overlapped 3)
+    = [(2, false), (0, false), (1, true)] := by decide
+example : Casket.AuthConc.runSched id cRule cCalls (Casket.AuthConc.idleSlots cCalls) (Casket.AuthConc.sequential 3)
+    = [(0, false), (1, true), (2, false)] := by decide
+
+/-- What the theorem rests on is that the hash slot belongs to the call.  With ONE slot per rule
+shared by all calls (`runShared`, the seeded change C03-plainmatcher-shared-hash-array) the
+sequential schedule still decides correctly, but when the valid login stores its hash between
+the wrong-password call's store and compare, the wrong password is accepted; in the reverse
+interleaving the valid login is refused. -/
+theorem C03_shared_hash_slot_fails_witness :
+    Casket.AuthConc.runShared id cRule cCalls ([], Casket.AuthConc.idleSlots cCalls) [0, 0, 1, 1] = [(0, false), (1, true)] ∧
+    Casket.AuthConc.runShared id cRule cCalls ([], Casket.AuthConc.idleSlots cCalls) [0, 1, 0, 1] = [(0, true), (1, true)] ∧
+    Casket.AuthConc.runShared id cRule cCalls ([], Casket.AuthConc.idleSlots cCalls) [1, 0, 1, 0] = [(1, false), (0, false)] ∧
+    Casket.AuthConcSpec.tally cRule cCalls [(0, true), (1, true)] = { wrongServed := 1, validRefused := 0 } := by
+  decide
 
 /-! ### Witnesses: the full property fails on the model exactly as on the real code -/
 
